@@ -1636,6 +1636,9 @@ class Interp:
         names: List[str] = []
         tnodes = h.type.elts if isinstance(h.type, ast.Tuple) else [h.type]
         for tn in tnodes:
+            while isinstance(tn, ast.BoolOp) and all(isinstance(x, (ast.Name, ast.Attribute, ast.BoolOp)) for x in tn.values):
+                # `except A or B:` - a class object is truthy, so the expression is A (`A and B` is B): only that class is caught
+                tn = tn.values[0] if isinstance(tn.op, ast.Or) else tn.values[-1]
             v = self.eval(tn, st, ctx)
             if v[0] in ("ext", "builtin"):
                 names.append(v[1].split("builtins.")[-1])
